@@ -51,6 +51,7 @@
 //     5 metadata kinds x 3 data kinds x 16 enable_* flag combinations, the rule between two decoy
 //     rules; get_participant_sec_attributes: 5 x 5 x 5 rtps / discovery / liveliness kinds x 4 flag
 //     combinations; raw plugin mask bits (tables 60 / 62) and the decoded plugin attributes.
+//   expressions through the XML path (C18, tests xc_expressions_*): see the comment in front of them.
 // Not covered (stay outside): S/MIME signature verification, XML parsing of rules / criteria, data tags (none on either
 //   side), builtin topic names, entity partitions in the plugin calls (callers pass none), and the
 //   corner "no currently valid grant + topic left unprotected" (the code refuses with Err, the
@@ -1221,6 +1222,229 @@ mod verif_xc_permissions {
       }
     }
     assert!(n >= 196 && n_valid >= 98 && n_invalid >= 98, "vacuity guard: {} cases, {} valid, {} not", n, n_valid, n_invalid);
+  }
+
+  // ================================================================== expressions through the XML path (C18)
+  // DDS Security 1.1 9.4.1.3.2.3.1.1 / .1.2: topic and partition expressions use "the syntax and rules
+  // of the POSIX fnmatch() function as specified in POSIX 1003.2-1992, Section B.6"; no flag is named,
+  // so the oracle `fnm` above is fnmatch with flags = 0: `*` any string (also across `/`), `?` any one
+  // character, `[...]` bracket expression with ranges and leading `!` negation (a `]` in first place is
+  // a member), a `[` that opens no bracket expression stands for itself, `/` and a leading `.` are
+  // ordinary characters, `**` is just two `*`; no backslash escapes / character classes (not in the
+  // alphabet). For every expression E and topic T: EITHER from_xml rejects the document (fail closed)
+  // OR the rule with E applies to T exactly iff fnmatch(E, T) — checked for E in a deny_rule with
+  // default ALLOW (subject alice) and in an allow_rule with default DENY (subject bob) through the real
+  // DomainParticipantPermissions::from_xml -> find_grant -> check_action, and for the hand list through
+  // the plugin's check_create_datawriter.
+  // Bound: every expression of length 1..=4 over {S, a, *, ?, [, ], -, /} (4680), every expression of
+  // length 5 over {S, *, [, ], /} (3125) and a hand list; topics: every string of length 0..=3 over the
+  // alphabet (585), the expression itself as a literal name, and a hand list.
+  const EXPR_ALPHABET: [char; 8] = ['S', 'a', '*', '?', '[', ']', '-', '/'];
+  const EXPR_HAND: [&str; 16] = [
+    "Secret**", "Sec**Plans", "rt/secret**", "***", "a[", "[a-", "[]", "**", "a/**/b", "[!a]*",
+    "Secret*", "[S*", "S[a-]]", "[]a]S", "a**", "**a",
+  ];
+  const TOPIC_HAND: [&str; 16] = [
+    "SecretPlans", "Secret", "Secret**", "Secret*", "Sec**Plans", "SecPlans", "SecXPlans", "rt/secret/x", "rt/secret**",
+    "a/b", "a/x/b", "a//b", "a/**/b", "Sa", "b", "a]",
+  ];
+  fn strings_over(alphabet: &[char], max_len: usize, min_len: usize) -> Vec<String> {
+    let mut all: Vec<String> = vec![String::new()];
+    let mut layer: Vec<String> = vec![String::new()];
+    for _ in 0..max_len {
+      let mut next = Vec::with_capacity(layer.len() * alphabet.len());
+      for s in &layer {
+        for c in alphabet {
+          let mut t = s.clone();
+          t.push(*c);
+          next.push(t);
+        }
+      }
+      all.extend(next.iter().cloned());
+      layer = next;
+    }
+    all.into_iter().filter(|s| s.chars().count() >= min_len).collect()
+  }
+  fn expr_xml(expr: &str) -> String {
+    let grant = |subject: &str, rule: &str, default: &str| {
+      format!(
+        "<grant name=\"xc\"><subject_name>{}</subject_name>\
+         <validity><not_before>2000-01-01T00:00:00Z</not_before><not_after>2100-01-01T00:00:00Z</not_after></validity>\
+         <{}><domains><id>3</id></domains><publish><topics><topic>{}</topic></topics></publish></{}>\
+         <default>{}</default></grant>",
+        subject, rule, expr, rule, default
+      )
+    };
+    format!(
+      "<?xml version=\"1.0\" encoding=\"UTF-8\"?>\n<dds><permissions>{}{}</permissions></dds>\n",
+      grant("CN=alice,O=xc", "deny_rule", "ALLOW"),
+      grant("CN=bob,O=xc", "allow_rule", "DENY")
+    )
+  }
+  /// Expressions for which the UNCHANGED tree is known to disagree with fnmatch (finding candidate,
+  /// see xc_expressions_recursive_wildcard): the glob crate reads a path component
+  /// `**` followed by `/` as "zero or more directories".
+  fn has_recursive_component(e: &str) -> bool {
+    e.starts_with("**/") || e.contains("/**/")
+  }
+  struct ExprStats {
+    n: u64,
+    accepted: u64,
+    rejected: u64,
+    applicable: u64,
+    not_applicable: u64,
+  }
+  fn check_expression(e: &str, topics: &[Vec<char>], names: &Names, now: &DateTime<Utc>, st: &mut ExprStats) {
+    let doc = match DomainParticipantPermissions::from_xml(&expr_xml(e)) {
+      Ok(d) => d,
+      Err(_) => {
+        st.rejected += 1; // fail closed
+        return;
+      }
+    };
+    st.accepted += 1;
+    let g_deny = doc.find_grant(&names.alice, now).expect("alice's grant");
+    let g_allow = doc.find_grant(&names.bob, now).expect("bob's grant");
+    let ec: Vec<char> = e.chars().collect();
+    let own = [ec.clone()];
+    for tc in topics.iter().chain(own.iter()) {
+      let t: String = tc.iter().collect();
+      let want = fnm(&ec, tc);
+      let deny_applicable = !bool::from(g_deny.check_action(Action::Publish, 3, &t, &[], &[]));
+      let allow_applicable = bool::from(g_allow.check_action(Action::Publish, 3, &t, &[], &[]));
+      assert!(
+        deny_applicable == want,
+        "XC-WITNESS label=perm.expr.deny expr={:?} topic={:?} from_xml=Ok applicable={} fnmatch={}: deny_rule with default ALLOW: publish on the topic is {} but the expression {} the topic as a file-name pattern",
+        e, t, deny_applicable, want, if deny_applicable { "DENIED" } else { "ALLOWED" }, if want { "matches" } else { "does not match" }
+      );
+      assert!(
+        allow_applicable == want,
+        "XC-WITNESS label=perm.expr.allow expr={:?} topic={:?} from_xml=Ok applicable={} fnmatch={}: allow_rule with default DENY: publish on the topic is {} but the expression {} the topic as a file-name pattern",
+        e, t, allow_applicable, want, if allow_applicable { "ALLOWED" } else { "DENIED" }, if want { "matches" } else { "does not match" }
+      );
+      if want { st.applicable += 1 } else { st.not_applicable += 1 }
+      st.n += 1;
+    }
+  }
+  fn expression_topics() -> Vec<Vec<char>> {
+    let mut topics: Vec<Vec<char>> = strings_over(&EXPR_ALPHABET, 3, 0).iter().map(|s| s.chars().collect()).collect();
+    topics.extend(TOPIC_HAND.iter().map(|s| s.chars().collect::<Vec<char>>()));
+    topics
+  }
+  fn all_expressions() -> Vec<String> {
+    let mut exprs = strings_over(&EXPR_ALPHABET, 4, 1);
+    exprs.extend(strings_over(&['S', '*', '[', ']', '/'], 5, 5));
+    exprs.extend(EXPR_HAND.iter().map(|s| s.to_string()));
+    exprs
+  }
+
+  #[test]
+  fn xc_expressions_through_xml() {
+    let names = Names::new();
+    let now = Utc.with_ymd_and_hms(2024, 6, 1, 0, 0, 0).unwrap();
+    let topics = expression_topics();
+    let mut st = ExprStats { n: 0, accepted: 0, rejected: 0, applicable: 0, not_applicable: 0 };
+    let mut skipped = 0u64;
+    for e in all_expressions() {
+      if has_recursive_component(&e) {
+        skipped += 1; // known divergence of the unchanged tree, kept in the #[ignore]d test below
+        continue;
+      }
+      check_expression(&e, &topics, &names, &now, &mut st);
+    }
+    assert!(
+      st.accepted > 4_000 && st.rejected > 500 && st.applicable > 40_000 && st.not_applicable > 1_000_000 && skipped < 100,
+      "vacuity guard: {} accepted, {} rejected, {} applicable, {} not applicable, {} skipped", st.accepted, st.rejected, st.applicable, st.not_applicable, skipped
+    );
+  }
+
+  // OPEN KNOWN FINDING F22 (known_findings.json; the test is active and reported as KNOWN-FINDING): the glob crate compiles a path
+  // component `**` followed by `/` into "zero or more directories", which fnmatch does not know:
+  //   expr "**/a"   topic "a"   : applicable=true  fnmatch=false
+  //   expr "a/**/b" topic "a/b" : applicable=true  fnmatch=false
+  //   expr "**/"    topic "a"   : applicable=true  fnmatch=false   (the `/` is swallowed)
+  // i.e. an allow_rule with such an expression covers MORE topics than the signed expression says.
+  // On the unchanged tree: 34 of the 46 enumerated expressions of this shape are accepted and all 34
+  // disagree, 2083 (expr, topic) pairs, every one "applicable but no fnmatch" (never fewer topics).
+  // Run: cargo test --lib --features security xc_expressions_recursive -- --ignored
+  #[test]
+  fn xc_expressions_recursive_wildcard() {
+    let names = Names::new();
+    let now = Utc.with_ymd_and_hms(2024, 6, 1, 0, 0, 0).unwrap();
+    let topics = expression_topics();
+    let mut div: Vec<String> = vec![];
+    let (mut n_more, mut n_fewer, mut n_expr) = (0u64, 0u64, 0u64);
+    for e in all_expressions() {
+      if !has_recursive_component(&e) {
+        continue;
+      }
+      let doc = match DomainParticipantPermissions::from_xml(&expr_xml(&e)) {
+        Ok(d) => d,
+        Err(_) => continue,
+      };
+      let g_allow = doc.find_grant(&names.bob, &now).expect("bob's grant");
+      let ec: Vec<char> = e.chars().collect();
+      let mut first = true;
+      for tc in &topics {
+        let t: String = tc.iter().collect();
+        let want = fnm(&ec, tc);
+        let applicable = bool::from(g_allow.check_action(Action::Publish, 3, &t, &[], &[]));
+        if applicable != want {
+          if applicable { n_more += 1 } else { n_fewer += 1 }
+          if first {
+            n_expr += 1;
+            first = false;
+            div.push(format!("expr={:?} topic={:?} applicable={} fnmatch={}", e, t, applicable, want));
+          }
+        }
+      }
+    }
+    assert!(
+      div.is_empty(),
+      "XC-WITNESS label=perm.expr.allow {} expressions with a `**/` component accepted by from_xml disagree with fnmatch ({} (expr, topic) pairs applicable but no fnmatch, {} the other way); first topic per expression: {}",
+      n_expr, n_more, n_fewer, div.join(" | ")
+    );
+  }
+
+  #[test]
+  fn xc_expressions_in_the_plugin() {
+    let names = Names::new();
+    let qos = QosPolicies::qos_none();
+    let gov = [TopicRuleSpec { expr: "*", read: true, write: true }];
+    let mut n = 0u64;
+    let mut accepted = 0u64;
+    for e in EXPR_HAND {
+      if has_recursive_component(e) {
+        continue;
+      }
+      let doc = match DomainParticipantPermissions::from_xml(&expr_xml(e)) {
+        Ok(d) => d,
+        Err(_) => continue, // fail closed
+      };
+      accepted += 1;
+      let mut ac = AccessControlBuiltin::new();
+      for (h, who) in [(1u32, &names.alice), (2u32, &names.bob)] {
+        ac.domain_rules.insert(h, mk_domain_rule(&gov));
+        ac.domain_participant_permissions.insert(h, (who.clone(), doc.clone()));
+      }
+      for t in TOPIC_HAND.iter().copied().chain(std::iter::once(e)) {
+        let want = fnmatch(e, t);
+        let deny_side = matches!(ac.check_create_datawriter(1, 3, t.to_string(), &qos), Ok(true));
+        let allow_side = matches!(ac.check_create_datawriter(2, 3, t.to_string(), &qos), Ok(true));
+        assert!(
+          deny_side == !want,
+          "XC-WITNESS label=perm.expr.deny expr={:?} topic={:?} from_xml=Ok applicable={} fnmatch={}: check_create_datawriter on the write-protected topic (deny_rule, default ALLOW) returned allowed={}",
+          e, t, !deny_side, want, deny_side
+        );
+        assert!(
+          allow_side == want,
+          "XC-WITNESS label=perm.expr.allow expr={:?} topic={:?} from_xml=Ok applicable={} fnmatch={}: check_create_datawriter on the write-protected topic (allow_rule, default DENY) returned allowed={}",
+          e, t, allow_side, want, allow_side
+        );
+        n += 1;
+      }
+    }
+    assert!(accepted >= 5 && n >= 80, "vacuity guard: {} accepted, {} cases", accepted, n);
   }
 
   // ================================================================== security attributes (C17)
